@@ -500,3 +500,10 @@ def validate_pytrie_table():
         return 2, {"trusted_base_check": r}
     print(f"trusted base: installed pytrie ({r['file']}) has the assumed shape: __init__ -> update(); longest_prefix_item keeps the last valued node and raises KeyError")
     return 0, {"trusted_base_check": r}
+
+
+@obligation("C01-X13", "records are copied and serialised whole: no model_dump(exclude_unset=True) / model_fields_set anywhere in the package (in-place merges do not update pydantic's fields_set)", floor=1)
+def x13(cx: Cx, ob: Ob) -> None:
+    from ..rules import no_fields_set_dependence
+
+    no_fields_set_dependence(cx, ob)
